@@ -32,6 +32,9 @@ def alias_family():
         add("smov%d" % w, "func main(a, b int%d) int%d { return int%d(a+b) + int%d(a-b) }\n" % (w, 2 * w, 2 * w, 2 * w))
         add("mov%d" % w, "func main(a, b uint%d) uint%d { return uint%d(a+b) + uint%d(a-b) }\n" % (w, 2 * w, 2 * w, 2 * w))
         add("smovchain%d" % w, "func main(a, b int%d) int%d {\n\tx := int%d(a ^ b)\n\ty := int%d(a & b)\n\tz := int%d(x) - int%d(y)\n\treturn z + int%d(a|b)\n}\n" % (w, 4 * w, 2 * w, 2 * w, 4 * w, 4 * w, 4 * w))
+    # two-level alias chain: a -> temp -> named variable -> cast; the named variable is used again after a's last direct use
+    add("alias2level", "func main(a uint31, b bool) uint31 {\n\tvar v4 int129 = int129(a)\n\treturn ((((uint31(v4) + (uint31(1073741823) ^ a)) + a) ^ a) + uint31(v4))\n}\n")
+    add("alias2level16", "func main(a, b uint16) uint16 {\n\tvar w uint64 = uint64(a)\n\tx := (uint16(w) + b) ^ a\n\ty := (x + a) ^ a\n\treturn y + uint16(w)\n}\n")
     add("shiftchain", "func main(a, b uint32) uint32 {\n\tx := a + b\n\ty := x << 3\n\tz := a - b\n\tw := y >> 1\n\tv := a ^ b\n\treturn (w ^ z) + v\n}\n")
     add("srshift", "func main(a, b int32) int32 {\n\tx := a - b\n\ty := x >> 2\n\tz := a + b\n\tw := z >> 5\n\tu := a ^ b\n\treturn (y + w) - u\n}\n")
     add("shiftcast", "func main(a, b uint16) uint64 {\n\tx := uint64(a + b) << 7\n\ty := uint64(a - b) << 9\n\tz := uint32(a ^ b)\n\treturn (x | y) + uint64(z)\n}\n")
